@@ -201,6 +201,48 @@ theorem C05_irrelevant_new (cfg : Cfg) (b0 : Bool) (hist : List Evt) (h : NoTies
   have h' : NoTies cfg (hist.filter isEval) := ⟨gridFrom_filter isEval h.1, grid_filter isEval h.2⟩
   rw [C05_new cfg b0 _ h', C05_new cfg b0 _ h, C05_irrelevant cfg b0 hist (grid_sorted h.2)]
 
+/-- **The start-up state check happens exactly once, with or without a start-up time trigger on the same function**
+(legacy: one `trigger_watch` loop serves both).  The head of the loop consumes `run_on_startup` and
+`check_state_expr_on_start` in consecutive iterations: the branches taken are `startup` (iff the function has a
+start-up time trigger), then `check` (iff `state_check_now` or `state_hold_false` is set), then the loop waits; the
+function is started once for `"startup"`, and the loop variables after the head are exactly those of a function without
+time trigger (`Legacy.start`). -/
+theorem C05_startup_check_once (cfg : Cfg) (tt b0 : Bool) :
+    Legacy.startT cfg tt b0 =
+      (Legacy.start cfg b0, (if tt then 1 else 0),
+        (if tt then [Legacy.Branch.startup] else []) ++
+          (if cfg.checkNow || cfg.holdFalse.isSome then [Legacy.Branch.check] else []) ++ [Legacy.Branch.wait]) := by
+  unfold Legacy.startT Legacy.start Legacy.headCurrent
+  have h1 : Gen.TW_HEAD_STARTUP_RESETS = true := by decide
+  have h2 : Gen.TW_HEAD_CHECK_RESETS = true := by decide
+  rw [h1, h2]
+  cases tt <;> cases hc : (cfg.checkNow || cfg.holdFalse.isSome) <;>
+    simp [Legacy.startLoopF, Legacy.headStepF]
+
+/-- **Legacy decorators with a time trigger on the same function: full.**  Whatever time trigger the function also
+carries, its state runs are the documented timeline, and a start-up time trigger starts it exactly once more. -/
+theorem C05_legacy_with_time_trigger (cfg : Cfg) (tt b0 : Bool) (hist : List Evt) (h : NoTies cfg hist) :
+    Legacy.holdRunsT cfg tt b0 hist = (Spec.holdRuns cfg b0 hist, if tt then 1 else 0) := by
+  unfold Legacy.holdRunsT
+  rw [C05_startup_check_once cfg tt b0]
+  have := C05_legacy cfg b0 hist h
+  unfold Legacy.holdRuns at this
+  simp only [this]
+
+/-- the flag resets are what makes the branches one-shot: without `self.run_on_startup = False` the loop would take the
+start-up branch for ever and never check the state trigger (fuel-bounded witness) -/
+example :
+    (Legacy.startLoopF ⟨false, true⟩ ⟨true, none, none⟩ true 3 ⟨true, true⟩ Legacy.init 0 []).2.2 =
+      [.startup, .startup, .startup] := by decide
+
+/-- **The shapes of the code the machines rely on** – read off `trigger_watch`, `TrigTime.wait_until` and
+`StateTriggerDecorator` on every run (`tools/extractors/C05.py`): the start condition `state_check_now or state_hold_false
+is not None` in all three, `state_hold_false` handled before `state_hold` with `is not None` tests, the delay stamped once
+and cancelled by a false evaluation, the hold block after the timeout block with a strict `<` in `wait_until`, `initial`
+bypassing `state_hold_false`, `>=` in both hold comparisons and `last_func_args` kept while a hold is pending in the new
+subsystem. -/
+theorem C05_shapes : legacyShapeOK = true ∧ waitUntilShapeOK = true ∧ newShapeOK = true := by decide
+
 /-- non-vacuity: a history on the grid where the initial check starts a hold that fires (2.5 s), a hold that is
 cancelled (true 5 s, false 7 s), a `state_hold_false` rejection (true 8 s after 1 s of false), `skip`/`unrelated`
 changes in between, and a hold that fires with the first candidate's arguments (true 12 s, true 13 s → run at 14.5 s) -/
